@@ -56,8 +56,9 @@ def cases(tier, seed):
         cs.append({"kind": "missing", "tool": tool, "seed": seed * 100 + 9})
     # tools that need every byte of every FAB (readers of single components never touch the cut tail,
     # and whip / the per-file iterators use 'parse failure = end of file' by design: not driven here)
-    for tool in ["colander", "combine", "combine_byfile", "chef", "chk2plt"]:
-        cs.append({"kind": "truncated", "tool": tool, "seed": seed * 100 + 17})
+    for tool in ["colander", "combine", "combine_byfile", "chef", "chk2plt", "whip", "pestle"]:
+        if tool not in ("whip", "pestle"):     # (a cut inside the last FAB: only for tools that read every component)
+            cs.append({"kind": "truncated", "tool": tool, "seed": seed * 100 + 17})
         if tool != "chk2plt":
             for damage in ("cut_at_box:1", "cut_at_box:2", "empty"):
                 cs.append({"kind": "truncated", "tool": tool, "seed": seed * 100 + 17, "damage": damage})
